@@ -53,7 +53,7 @@ Definition tiny_table : table :=
   [ (conn_closed, mkStatus 102 (str "Connection Closed") (Some []));
     ((str "user", str "shared"), mkStatus 4000 (str "shared") (Some (str "why"))) ].
 Definition cfg_of (proxy binder reset : bool) : config :=
-  mkConfig proxy binder reset 502 (str "Bad Gateway").
+  mkConfig proxy binder reset 502 (str "Bad Gateway") true.
 
 (* plugin/proxy before commit c131a9e: one proxied PUSH while the backend is down rewrites
    statConnClosed; a closed session then reports 502 Bad Gateway. *)
@@ -98,6 +98,23 @@ Proof.
 Qed.
 Print Assumptions C15_missing_reset_refuted.
 
+(* A public constructor that hands out the predefined object of the requested code instead of
+   allocating (round-3 seeded change: NewStatusByCodeText(code, nil, false)): an application
+   annotating "its own" 102 status rewrites what every closed session reports. *)
+Theorem C15_shared_constructor_refuted :
+  let c := mkConfig false false true 502 (str "Bad Gateway") false in
+  exists t h e,
+    is_inspect e = false
+    /\ snd (step c t (run c t h) e) <> snd (step c t (init t) e).
+Proof.
+  exists tiny_table,
+         [EAppCustom (mkStatus 102 (str "Connection Closed") None)
+                     (mkStatus 102 (str "my own text") (Some (str "application note")))],
+         (EReturn conn_closed).
+  vm_compute. split; [reflexivity | discriminate].
+Qed.
+Print Assumptions C15_shared_constructor_refuted.
+
 (* ... while the predefined statuses themselves stay intact even then. *)
 Theorem C15_sentinels_immutable_without_reset : forall t h a,
   a < tlen t ->
@@ -112,11 +129,14 @@ Example C15_example :
   cfg_safe c = true
   /\ trace_from c tiny_table (init tiny_table)
        [EReturn conn_closed; EProxyPush (FSent conn_closed); EProxyCall (FSent conn_closed);
-        ECopy conn_closed (str "reset"); EReturn conn_closed; EInspect 0]
+        ECopy conn_closed (str "reset");
+        EAppCustom (mkStatus 102 (str "Connection Closed") None) (mkStatus 102 (str "mine") None);
+        EReturn conn_closed; EInspect 0]
      = [Some (mkStatus 102 (str "Connection Closed") (Some []));
         None;
         Some (mkStatus 502 (str "Bad Gateway") (Some []));
         Some (mkStatus 102 (str "Connection Closed") (Some (str "reset")));
+        Some (mkStatus 102 (str "mine") None);
         Some (mkStatus 102 (str "Connection Closed") (Some []));
         Some (mkStatus 102 (str "Connection Closed") (Some []))].
 Proof. vm_compute. split; reflexivity. Qed.
